@@ -357,21 +357,26 @@ pub fn run_conc(tokens: &[&str]) -> String {
         let mut handles = vec![];
         for plan in conns {
             handles.push(tokio::spawn(async move {
+                let t0 = Instant::now();
                 let s = tokio::net::TcpStream::connect(addr).await.unwrap();
                 let local = s.local_addr().unwrap();
                 let (mut rd, mut wr) = s.into_split();
                 let reader = tokio::spawn(async move {
                     let mut got = vec![];
+                    let mut last = Instant::now();
                     let mut tmp = [0u8; 4096];
                     loop {
-                        match tokio::time::timeout(Duration::from_millis(400), rd.read(&mut tmp)).await {
+                        match tokio::time::timeout(Duration::from_millis(900), rd.read(&mut tmp)).await {
                             Err(_) => break,
                             Ok(Ok(0)) => break,
-                            Ok(Ok(n)) => got.extend_from_slice(&tmp[..n]),
+                            Ok(Ok(n)) => {
+                                got.extend_from_slice(&tmp[..n]);
+                                last = Instant::now();
+                            }
                             Ok(Err(_)) => break,
                         }
                     }
-                    got
+                    (got, last)
                 });
                 let mut sent = vec![];
                 for (delay, frame) in plan {
@@ -381,8 +386,8 @@ pub fn run_conc(tokens: &[&str]) -> String {
                     let _ = wr.write_all(&frame).await;
                     sent.extend_from_slice(&frame);
                 }
-                let got = reader.await.unwrap_or_default();
-                (local, sent, got)
+                let (got, last) = reader.await.unwrap_or_else(|_| (vec![], Instant::now()));
+                (local, sent, got, last.duration_since(t0).as_millis())
             }));
         }
         let mut res = vec![];
@@ -394,9 +399,9 @@ pub fn run_conc(tokens: &[&str]) -> String {
     });
     let fa = factory_addrs.lock().unwrap().clone();
     let mut parts = vec![];
-    for (local, sent, got) in &out {
+    for (local, sent, got, ms) in &out {
         let n = fa.iter().filter(|a| *a == local).count();
-        parts.push(format!("sent={} recv={} addr={}", hex(sent), hex(got), n));
+        parts.push(format!("sent={} recv={} addr={} ms={}", hex(sent), hex(got), n, ms));
     }
     let extra = fa.len() as i64 - out.len() as i64;
     format!("{} ; factory_extra={}", parts.join(" | "), extra)
